@@ -35,6 +35,21 @@ def _equip():
     return dict(manufacturer='verif', manufacturer_model_name='model', software_versions='1.0', device_serial_number='sn1')
 
 
+NON_LATIN1 = False      # set by a check that knows the open finding about text outside ISO 8859-1 (C20-non-latin1-text-unwritable)
+
+
+def text(r, limit=64):
+    """(free text for an LO / ST argument, its class): ASCII, at the length limit, Latin-1, or (only if enabled) beyond Latin-1"""
+    k = r.random()
+    if k < 0.55:
+        return 'description ' + str(r.randint(0, 999)), 'ascii'
+    if k < 0.7:
+        return ''.join(r.choice('abc XYZ-_.,()/') for _ in range(limit)).strip() or 'x', 'limit'
+    if k < 0.9 or not NON_LATIN1:
+        return r.choice(['Größe é', 'señor ñ', 'crème brûlée', 'ÅÆØ']), 'latin1'
+    return r.choice(['中文', 'Ωμέγα', 'тест']), 'non-latin1'
+
+
 def layout(arr, how):
     """The same values in a different memory layout (the library may skip a defensive copy depending on it)."""
     if how == 'c':
@@ -137,6 +152,12 @@ def subject_seg(r, nr):
             kw['tile_size'] = (r.randint(2, 4), r.randint(2, 4))
     if r.random() < 0.3:
         kw['omit_empty_frames'] = False
+    txt, txt_class = text(r)
+    if r.random() < 0.6:
+        kw['series_description'] = txt
+        kw['content_description'] = txt
+    else:
+        txt_class = None
     if r.random() < 0.3 and kind in ('series', 'enhanced'):
         from pydicom.uid import RLELossless, ExplicitVRLittleEndian
         kw['transfer_syntax_uid'] = r.choice([ExplicitVRLittleEndian, RLELossless] if styp != ST.BINARY else [ExplicitVRLittleEndian])
@@ -144,8 +165,8 @@ def subject_seg(r, nr):
     def call(source_images, pixel_array, segment_descriptions, **more):
         return hd.seg.Segmentation(source_images, pixel_array, styp, segment_descriptions, **more, **kw)
     return {'name': 'seg.Segmentation', 'variant': (kind, styp.value, dtype, stacked, arr.ndim, how, nseg > 1,
-                                                     kw.get('max_fractional_value'), tuple(sorted(inputs_extra))),
-            'call': call, 'inputs': {'source_images': src, 'pixel_array': arr, 'segment_descriptions': descs, **inputs_extra}}
+                                                     kw.get('max_fractional_value'), tuple(sorted(inputs_extra)), txt_class),
+            'text_class': txt_class, 'call': call, 'inputs': {'source_images': src, 'pixel_array': arr, 'segment_descriptions': descs, **inputs_extra}}
 
 
 def subject_seg_volume(r, nr):
@@ -318,8 +339,11 @@ def subject_sr(r, nr):
     cls = getattr(hd.sr, which)
     ids = _ids(r)
     opt = {}
+    txt, txt_class = text(r)
     if r.random() < 0.5:
-        opt.update(institution_name='inst', institutional_department_name='dept')
+        opt.update(institution_name=txt, institutional_department_name='dept')
+    else:
+        txt_class = None
     if r.random() < 0.4:
         opt.update(is_verified=True, verifying_observer_name='Doe^John', verifying_organization='org')
     if r.random() < 0.4:
@@ -328,8 +352,8 @@ def subject_sr(r, nr):
 
     def call(evidence, content):
         return cls(evidence=evidence, content=content, manufacturer='verif', record_evidence=record, **ids, **opt)
-    return {'name': 'sr.' + which, 'variant': (which, tuple(sorted(opt)), record, len(report[0].ContentSequence)),
-            'call': call, 'inputs': {'evidence': src, 'content': report[0]}}
+    return {'name': 'sr.' + which, 'variant': (which, tuple(sorted(opt)), record, len(report[0].ContentSequence), txt_class),
+            'text_class': txt_class, 'call': call, 'inputs': {'evidence': src, 'content': report[0]}}
 
 
 def subject_ko(r, nr):
